@@ -60,7 +60,7 @@ pub fn show_themes(
         None,
         &config::Config::from(opt).into(),
     )
-    .unwrap();
+    .unwrap_or_else(|_| OutputType::stdout());
     let title_style = ansi_term::Style::new().bold();
     let writer = output_type.handle().unwrap();
 
